@@ -484,9 +484,10 @@ Theorem C07_dispatcher_sequence_one_outcome_per_frame :
 Proof. exact disp_run_length. Qed.
 Print Assumptions C07_dispatcher_sequence_one_outcome_per_frame.
 
-(* ---- lock discipline of the PPPoE session receive path (hand transcription [head_paths] of internal/pppoe and pkg/ppp):
+(* ---- lock discipline of the PPPoE discovery handlers (PADI/PADR/PADT, every return path) and the session receive path
+   (hand transcription [head_paths] of internal/pppoe and pkg/ppp):
    on every path, in every prefix: no lock is acquired while it is held (sync.Mutex is not re-entrant), locks are acquired in
-   one global order (session < LCP < IPCP < IPv6CP < RA buckets: no cyclic wait between goroutines), every blocking
+   one global order (sidMu < sessionMu < session < LCP < IPCP < IPv6CP < RA buckets: no cyclic wait between goroutines), every blocking
    operation happens with no lock held, and every path ends with all locks released ---- *)
 Theorem C07_lock_discipline_head :
   forallb (fun np => path_ok [] (snd np) && match held_after [] (snd np) with [] => true | _ => false end) head_paths = true.
@@ -505,8 +506,15 @@ Theorem C07_lock_discipline_no_blocking_under_lock :
   forall a held b, path_ok held (a ++ Blocking :: b) = true -> held_after held a = [].
 Proof. exact path_ok_blocking. Qed.
 Print Assumptions C07_lock_discipline_no_blocking_under_lock.
-(* the seeded changes of this class are rejected by the discipline: C07_q2 (rxjEvent re-enters Close() under f.mu) and
-   C07_m2 (dispatchDHCPv6 waits for a slot under the session lock) *)
-Theorem C07_lock_discipline_seeded_refuted : path_ok [] path_q2 = false /\ path_ok [] path_m2 = false.
+(* the seeded changes of this class are rejected by the discipline: C07_q2 (rxjEvent re-enters Close() under f.mu),
+   C07_m2 (dispatchDHCPv6 waits for a slot under the session lock), C07_r2 (error return of handlePADR leaves sidMu held) *)
+Theorem C07_lock_discipline_seeded_refuted : path_ok [] path_q2 = false /\ path_ok [] path_m2 = false /\
+  (path_ok [] path_r2 = true /\ held_after [] path_r2 = [LD]).
 Proof. exact seeded_paths_refuted. Qed.
 Print Assumptions C07_lock_discipline_seeded_refuted.
+(* why "every path ends with no lock held" matters (seeded C07_r2: handlePADR returning the no-free-id error with sidMu
+   held): whoever needs that lock afterwards waits for ever *)
+Theorem C07_lock_discipline_leak_blocks :
+  forall l held q, holds l held = true -> path_ok held (Acq l :: q) = false.
+Proof. exact leaked_lock_blocks. Qed.
+Print Assumptions C07_lock_discipline_leak_blocks.
